@@ -207,6 +207,8 @@ def run(ctx) -> None:
     )
     from .c14 import generators
 
+    RMAP = ctx.rule("C19/watch-maps-hold-the-path-as-given", "the wd->path and path->wd entries an add-watch files hold the path argument itself, by assignment (instances shared with C07): native paths are look-ups in that map, a stale or re-spelled entry names an entry that does not exist", floor=2)
+    ctx.borrow("c07", "C07/root-spelling-preserved", RMAP, only=lambda i_: "_add_watch" in i_.construct)
     generators(ctx, RSY, RSY, P)
 
     # ---- native paths name the real entry: they are wd->path look-ups, so the table must be current when a record is resolved
